@@ -2,6 +2,7 @@
 Line-protocol step function for the t-digest model (`dsmodel_tdigest tdigest`).  Core Lean only.
 Mirrors harness/tdigest_h.cpp: same op lines, same canonical observation lines.
 
+  consts
   new <id> d|f <k>          upd <id> <hexT>            updn <id> <hexT>...
   compress <id>             merge <id> <other>         ser <id>          dump <id>
   rank <id> <hexT>          quant <id> <hex64>         cdf|pmf <id> <hexT>...
@@ -43,6 +44,7 @@ structure Cfg where
   tun : Tun
   zMul : Nat
   zAdd : Nat
+  defaultK : Nat
 
 variable {α : Type} [Num α] [Conv α Float] [Fmt α]
 
@@ -145,8 +147,14 @@ def stepOne (c : Cfg) (s : St α) (op : String) (args : List String) (other : Op
 
 def finish (res : String) (s : St α) : String := res ++ " | " ++ stateStr s
 
+/-- `consts`: the translated constants as the compiled headers see them (DEFAULT_K, two scale-function values) -/
+def constsStr (c : Cfg) : String :=
+  let sc : Scale Float := k2 c.zMul c.zAdd
+  s!"K {c.defaultK} {hexF (sc.normalizer 20.0 7.0)} {hexF (sc.normalizer 400.0 1000000.0)} {hexF (sc.max 0.3 0.5)}"
+
 def stepLine (c : Cfg) (objs : Objs) (w : List String) : Objs × String :=
   match w with
+  | ["consts"] => (objs, constsStr c)
   | ["new", id, ty, k] =>
     match id.toNat?, k.toNat? with
     | some id, some k =>
